@@ -52,6 +52,11 @@ def unit_token(i, got):
     return 9
 
 
+def unit_item_foreign(i, c):
+    """rows that already carry a unit_id of their own (the other item's id, or the dataclass default -1): what revived Scope rows look like"""
+    return [{"unit_id": (3 - i if k == 0 else -1), "stmt_id": 10 * i + k, "v": c} for k in range(c)]
+
+
 def cfg_item(i, c):
     g = nx.DiGraph()
     for k in range(c):
@@ -78,6 +83,10 @@ FAMILIES = {
                  puts_bundle=True, key="unit_id"),
     "gir": dict(cls=lambda p, ic, bc: L.UnitGIRLoader(OPTIONS, [], p, ic, bc), item=unit_item, token=unit_token,
                 puts_bundle=False, key="unit_id"),
+    "unitx": dict(cls=lambda p, ic, bc: L.ScopeHierarchyLoader(OPTIONS, [], p, ic, bc), item=unit_item_foreign, token=unit_token,
+                  puts_bundle=True, key="unit_id"),
+    "girx": dict(cls=lambda p, ic, bc: L.UnitGIRLoader(OPTIONS, [], p, ic, bc), item=unit_item_foreign, token=unit_token,
+                 puts_bundle=False, key="unit_id"),
     "cfg": dict(cls=lambda p, ic, bc: L.CFGLoader(OPTIONS, schema.control_flow_graph_schema, p, ic, bc), item=cfg_item,
                 token=cfg_token, puts_bundle=True, key="method_id"),
 }
@@ -173,6 +182,19 @@ def ops_for(ids, contents):
     return ops
 
 
+def closing(ids):
+    """the closing suffix: whatever happened before, after export + export_indexing a fresh loader must return the latest content of every id"""
+    return [{"op": "export"}, {"op": "export_indexing"}, {"op": "restore"}] + [{"op": "get", "id": i} for i in ids]
+
+
+def close_history(forest, s, parent, d, ids):
+    for o in closing(ids):
+        if not s.enabled(o):
+            return
+        d += 1
+        parent = forest.add(parent, s.apply(o), d)
+
+
 def subtree(args):
     cfgd, first_i, first, depth, ids, out_dir = args
     forest = Forest(out_dir, "c15_%s_%03d" % (cfgd["tag"], first_i), max_nodes=10 ** 9, meta={"config": {k: v for k, v in cfgd.items() if k != "scratch"}})
@@ -191,13 +213,15 @@ def subtree(args):
                 if not s.enabled(o):
                     continue
                 ev = s.apply(o)
+                k = forest.add(parent, ev, d)
+                if d >= depth:
+                    forest.leaves += 1
+                    if any(x["op"] == "save" for x in hist + [o]):
+                        close_history(forest, s, k, d, ids)
             finally:
                 s.close()
-            k = forest.add(parent, ev, d)
             if d < depth:
                 rec(k, hist + [o], d + 1)
-            else:
-                forest.leaves += 1
 
     s = Session(cfgd)
     try:
@@ -234,6 +258,7 @@ def chain_job(args):
                         o = r[0]
                 ev = s.apply(o)
                 parent = forest.add(parent, ev, d)
+            close_history(forest, s, parent, length, [1, 2, 3])
         finally:
             s.close()
         forest.leaves += 1
@@ -310,13 +335,13 @@ def write_failure_probe(scratch):
 def configs(tier, scratch):
     out = []
     if tier == "quick":
-        grid = [("unit", 1, 1, 1), ("unit", 2, 1, 2), ("cfg", 1, 2, 3), ("gir", 1, 1, 2)]
+        grid = [("unit", 1, 1, 1), ("unit", 2, 1, 2), ("cfg", 1, 2, 3), ("gir", 1, 1, 2), ("unitx", 1, 1, 2)]
     elif tier == "rounds_quick":
         grid = [("gir", 1, 1, 2), ("cfg", 1, 1, 3)]
     elif tier == "rounds_thorough":
         grid = [(f, ic, bc, mr) for f in ("unit", "cfg", "gir") for ic, bc, mr in ((1, 1, 2), (2, 2, 3), (1, 2, 1))]
     else:
-        grid = [(f, ic, bc, mr) for f in ("unit", "cfg", "gir") for ic in (1, 2) for bc in (1, 2) for mr in (1, 2, 3)]
+        grid = [(f, ic, bc, mr) for f in ("unit", "cfg", "gir") for ic in (1, 2) for bc in (1, 2) for mr in (1, 2, 3)] + [("unitx", 1, 1, 2), ("girx", 1, 2, 2), ("unitx", 2, 1, 3)]
     for f, ic, bc, mr in grid:
         out.append(dict(family=f, item_cap=ic, bundle_cap=bc, max_rows=mr, scratch=scratch,
                         puts_bundle=FAMILIES[f]["puts_bundle"], tag="%s_i%d_b%d_m%d" % (f, ic, bc, mr)))
